@@ -5,18 +5,18 @@ Oracles (all written out here, none taken from biotite):
 * an alphabet is a Python list of symbols; code = list index
 * a sequence is a Python list of symbols (op-list histories against the list)
 * complement = map derived from the IUPAC ambiguity sets
-* translation = per-codon dict lookup; ORFs = naive scan over all positions
+* translation = per-codon dict lookup; ORFs = naive scan over all positions; the NCBI tables are
+  stored in /verif/fixtures/c03_ncbi_tables.py (biotite's data file is not read)
 * k-mers = naive sliding window with positional radix arithmetic in Python ints
 """
 
-import os
-import re
+import inspect
 import string
-from functools import lru_cache
 
 import numpy as np
 from hypothesis import strategies as st
 
+from fixtures import c03_ncbi_tables
 from vlib import Enum, Outcome, Sub, findings
 
 PROPERTY = "C03"
@@ -91,11 +91,15 @@ def _must_reject(o, fn, clause, what, exc=None):
     return False
 
 
-def _must_raise_anything(o, fn, clause, what):
-    """Non-ASCII str input: any exception is accepted, a returned value is not."""
+def _must_raise_anything(o, fn, clause, what, label=None):
+    """Only "an error" is promised (a precondition in a docstring, non-ASCII str input): any
+    exception is accepted, a returned value is not.  `label`: prefix of the label that records
+    the exception type that occurred."""
     try:
         r = fn()
-    except Exception:  # noqa: BLE001
+    except Exception as e:  # noqa: BLE001
+        if label:
+            o.label(f"{label}={type(e).__name__}")
         return True
     o.fail(clause, f"{what}: returned {r!r:.200} instead of raising")
     return False
@@ -316,8 +320,14 @@ def run_roundtrip(case):
     if kind == "letter":
         got = alph.decode_multiple(np.array(idx, dtype=np.uint8), as_bytes=True)
         o.check_eq([bytes(x) for x in got], [c.encode("ascii") for c in want], "decode_multiple", "as_bytes=True")
-        # the single-symbol form takes the same keyword: the symbol comes back as str or as bytes
-        for c, sym in zip(idx, want):
+        # the single-symbol form takes the same keyword today (undocumented, may be dropped): where it
+        # exists the symbol comes back as str or as bytes
+        try:
+            has_kw = "as_bytes" in inspect.signature(alph.decode).parameters
+        except (TypeError, ValueError):
+            has_kw = False
+        o.label("decode_single_as_bytes_kw" if has_kw else "decode_single_without_as_bytes_kw")
+        for c, sym in zip(idx, want) if has_kw else ():
             one = alph.decode(c, as_bytes=True)
             o.check(
                 one == sym or (isinstance(one, (bytes, np.bytes_)) and bytes(one) == sym.encode("ascii")),
@@ -366,6 +376,13 @@ def run_byte_rejection(case):
         ("encode_multiple(ndarray U1)", lambda: alph.encode_multiple(np.array([pre, ch, post], dtype="U1")), "multi", ascii_),
         ("GeneralSequence(str)", lambda: GeneralSequence(alph, pre + ch + post).code, "multi", ascii_),
     ]
+    if b == 0:
+        # NumPy string arrays cannot hold a NUL character: the element *is* the empty string
+        # (np.array(["\x00"], dtype="U1")[0] == ""), and lists of symbols are converted to such
+        # arrays.  An empty element is not a symbol in any reading of the property: NUL is judged
+        # in the str / bytes forms only.
+        calls = [c for c in calls if "list of" not in c[0] and "ndarray" not in c[0]]
+        o.label("nul_byte_only_in_str_and_bytes_forms")
     if inside:
         i = s.index(ch)
         o.label("inside")
@@ -482,10 +499,16 @@ def run_symbol_rejection(case):
             forms = [
                 ("str", lambda full: "".join(full)),
                 ("bytes", lambda full: "".join(full).encode("ascii")),
-                ("list", lambda full: list(full)),
-                ("ndarray_U", lambda full: np.array(full, dtype="U1")),
-                ("ndarray_S", lambda full: np.array([c.encode("ascii") for c in full], dtype="S1")),
             ]
+            if out != "\x00":
+                # (a NUL element of a NumPy string array is the empty string: not a symbol)
+                forms += [
+                    ("list", lambda full: list(full)),
+                    ("ndarray_U", lambda full: np.array(full, dtype="U1")),
+                    ("ndarray_S", lambda full: np.array([c.encode("ascii") for c in full], dtype="S1")),
+                ]
+            else:
+                o.label("nul_outsider_only_in_str_and_bytes_forms")
         full = body[:pos] + [out] + body[pos:]
         _must_reject(o, lambda: alph.encode(out), cl, f"encode({out!r})")
         for name, conv in forms:
@@ -503,7 +526,8 @@ def run_symbol_rejection(case):
         seq = GeneralSequence(alph, list(body))
         p = pos % len(body)
         _must_reject(o, lambda: seq.__setitem__(p, out), cl, f"seq[{p}] = {out!r}")
-        _must_reject(o, lambda: seq.__setitem__(slice(p, p + 1), [out]), cl, f"seq[{p}:{p + 1}] = [{out!r}]")
+        if not (kind == "letter" and out == "\x00"):  # (a list holding NUL: see above)
+            _must_reject(o, lambda: seq.__setitem__(slice(p, p + 1), [out]), cl, f"seq[{p}:{p + 1}] = [{out!r}]")
         o.check_eq([_plain(x) for x in seq.symbols], body, "rejected_assignment_leaves_sequence", "after rejected assignment")
     return o
 
@@ -692,7 +716,19 @@ def run_mapper(case):
         tgt = Alphabet(tsyms)
     o.label(kind, mode, _size_label(n), "tgt>256" if len(tsyms) > 256 else "tgt<=256")
     if mode == "missing":
-        _must_reject(o, lambda: AlphabetMapper(src, tgt), "symbol_outside_alphabet_raises_AlphabetError", f"AlphabetMapper with target lacking {dropped!r}")
+        # documented as a precondition only ("the target alphabet must contain at least all symbols
+        # of the source alphabet"), no exception type is named: an error of any type, never a mapper
+        cl = "mapper_target_lacking_symbol_no_value"
+        try:
+            lazy = AlphabetMapper(src, tgt)
+        except Exception as e:  # noqa: BLE001 - the type is recorded, not judged
+            o.label(f"missing_symbol_ctor_raised={type(e).__name__}")
+            return o
+        # a mapper that validates on use: the code of the missing symbol must still not yield a value
+        o.label("missing_symbol_mapper_built")
+        c = syms.index(dropped)
+        _must_raise_anything(o, lambda: lazy[c], cl, f"mapper[{c}] (symbol {dropped!r} is missing in the target)")
+        _must_raise_anything(o, lambda: lazy[np.array([c])], cl, f"mapper[[{c}]] (symbol {dropped!r} is missing in the target)")
         return o
     mapper = AlphabetMapper(src, tgt)
     codes = [c % n for c in case["codes"]]
@@ -707,6 +743,15 @@ def run_mapper(case):
         if not o.check(isinstance(m, np.ndarray) and m.shape == (len(codes),), cl, f"mapper[{name}] returned {type(m).__name__} {getattr(m, 'shape', None)}"):
             continue
         o.check_eq([_plain(x) for x in tgt.decode_multiple(m)], want, cl, f"mapper[{name} array]")
+    # code arrays that are views with a stride (every other element, reversed)
+    if codes:
+        seq_dt = np.uint8 if n <= 256 else np.uint16
+        for dt in (np.int64, seq_dt):
+            m = mapper[np.repeat(np.array(codes, dtype=dt), 2)[::2]]
+            o.check_eq([_plain(x) for x in tgt.decode_multiple(m)], want, cl, f"mapper[strided {np.dtype(dt).name} view]")
+            m = mapper[np.array(codes[::-1], dtype=dt)[::-1]]
+            o.check_eq([_plain(x) for x in tgt.decode_multiple(m)], want, cl, f"mapper[reversed {np.dtype(dt).name} view]")
+        o.label("strided_code_views")
     return o
 
 
@@ -726,6 +771,8 @@ def st_seq_ops(tier):
     form = st.sampled_from(_VALUE_FORMS)
     bits = st.lists(st.booleans(), min_size=1, max_size=8)
     op = st.one_of(
+        st.tuples(st.just("eq_probe"), ints, raw),
+        st.tuples(st.just("add"), st.lists(raw, min_size=1, max_size=8), st.sampled_from(["right", "left"]), st.just(True)),
         st.tuples(st.just("get_int"), ints),
         st.tuples(st.just("get_oob"), st.integers(0, 5), st.booleans()),
         st.tuples(st.just("get_slice"), opt, opt, step),
@@ -740,7 +787,6 @@ def st_seq_ops(tier):
         st.tuples(st.just("reverse"), st.booleans()),
         st.tuples(st.just("reverse_probe"), st.booleans(), ints, raw),
         st.tuples(st.just("copy_probe"), ints, raw),
-        st.tuples(st.just("eq_probe"), ints, raw),
         st.tuples(st.just("set_symbols"), st.lists(raw, max_size=12), st.sampled_from(["list", "tuple", "str", "ndarray"])),
         st.tuples(st.just("set_code"), st.lists(raw, max_size=12), st.sampled_from(INT_DTYPES)),
         st.tuples(st.just("invalid_probe"), ints, st.integers(0, 3)),
@@ -862,6 +908,8 @@ def run_seq_ops(case):
     model = env.syms_from(case["init"]) if case["init"] else []
     form = case["init_form"]
     o.label(kind, _size_label(len(env.A)), "init_empty" if not model else ("init>=4" if len(model) >= 4 else "init<4"))
+    if case["kind"] == "gen_big":
+        o.label("gen_big")
 
     # ---- construction
     if kind == "nuc":
@@ -1000,7 +1048,7 @@ def run_seq_ops(case):
                     A2 = list(AMB)
                 elif kind != "prot":
                     n_extra = 2
-                    wide = kind != "gen_letter" and len(A) <= 256 and len(op[1]) >= 1 and sum(op[1]) % 3 != 0
+                    wide = kind != "gen_letter" and len(A) <= 256 and len(op[1]) >= 1 and sum(op[1]) % 3 != 1
                     if wide:
                         # the extended alphabet needs a wider code dtype than the current one
                         n_extra = 300 - len(A)
@@ -1030,16 +1078,29 @@ def run_seq_ops(case):
             cur = res
         elif name == "add_incompatible":
             if kind == "nuc":
-                other = ProteinSequence("AC")
+                other, osyms = ProteinSequence("AC"), ["A", "C"]
             elif kind == "prot":
-                other = NucleotideSequence("AC")
+                other, osyms = NucleotideSequence("AC"), ["A", "C"]
             else:
                 B = list(reversed(A))
                 if B == A:
                     B = _extra_symbols({"kind": "letter" if kind == "gen_letter" else "generic"}, A, 1)
-                other = GeneralSequence(env.alphabet_for(B), B[:1])
-            fn = (lambda: cur + other) if op[1] == "right" else (lambda: other + cur)
-            _must_reject(o, fn, "concatenation_incompatible_alphabets", "sum of sequences with incompatible alphabets", exc=(ValueError, _AlphabetError()))
+                other, osyms = GeneralSequence(env.alphabet_for(B), B[:1]), B[:1]
+            # Neither alphabet extends the other.  Nothing is documented for this case; the
+            # property only says that a sum agrees with the concatenated symbols.  So: either an
+            # error (any type), or a sequence that holds exactly the symbols of both operands.
+            try:
+                res = (cur + other) if op[1] == "right" else (other + cur)
+            except Exception as e:  # noqa: BLE001 - the type is recorded, not judged
+                o.label(f"add_incompatible_raised={type(e).__name__}")
+            else:
+                o.label("add_incompatible_returned_sequence")
+                wsyms = (model + osyms) if op[1] == "right" else (osyms + model)
+                try:
+                    gsyms = [_plain(x) for x in res.symbols]
+                except Exception as e:  # noqa: BLE001
+                    gsyms = f"{type(e).__name__}: {e}"
+                o.check_eq(gsyms, wsyms, "concatenation", "symbols of a sum of sequences whose alphabets do not extend each other")
         elif name == "restore":
             # the sequence continues its life as an object restored by pickling / deep copying
             # (equal, but not identical, alphabet objects): all later operations must behave alike
@@ -1174,14 +1235,29 @@ def run_complement(case):
     comp = seq.complement()
     o.check(type(comp) is NucleotideSequence, "complement_iupac_pairing", f"type {type(comp).__name__}")
     o.check_eq(str(comp), want, "complement_iupac_pairing", f"complement of {s!r}")
-    o.check_eq(list(comp.get_alphabet().get_symbols()), list(AMB if is_amb else UNAMB), "complement_keeps_alphabet", "alphabet of the complement")
+    calph = list(comp.get_alphabet().get_symbols())
+    # An ambiguous-alphabet sequence that holds only A, C, G, T may legitimately come back over the
+    # unambiguous alphabet (the property fixes the symbols, not the alphabet object): the alphabet
+    # and the object equality (which includes the alphabet) are demanded only where the symbols
+    # leave no choice.
+    forced = has_amb or not is_amb
+    if forced:
+        o.check_eq(calph, list(AMB if is_amb else UNAMB), "complement_keeps_alphabet", "alphabet of the complement")
+    else:
+        o.check(calph in (list(AMB), list(UNAMB)), "complement_keeps_alphabet", f"alphabet of the complement is {calph!r}")
+        o.label("complement_alphabet=" + ("amb" if calph == list(AMB) else "unamb"))
     o.check_eq(str(seq), s, "complement_does_not_mutate", "original after complement()")
     back = comp.complement()
-    o.check(back == seq, "complement_involution", lambda: f"complement(complement({s!r})) = {str(back)!r}")
+    if forced:
+        o.check(back == seq, "complement_involution", lambda: f"complement(complement({s!r})) = {str(back)!r}")
     o.check_eq(str(back), s, "complement_involution", "string after two complements")
     # reverse complement in both orders
     o.check_eq(str(seq.reverse().complement()), want[::-1], "complement_iupac_pairing", "reverse().complement()")
     o.check_eq(str(seq.complement().reverse(copy=False)), want[::-1], "complement_iupac_pairing", "complement().reverse(copy=False)")
+    # complement of a view with negative stride, and of every other symbol (strided code)
+    o.check_eq(str(seq.reverse(copy=False).complement()), want[::-1], "complement_iupac_pairing", "reverse(copy=False).complement()")
+    o.check_eq(str(seq[::2].complement()), want[::2], "complement_iupac_pairing", "seq[::2].complement()")
+    o.check_eq(str(seq), s, "complement_does_not_mutate", "original after complement() of views")
     return o
 
 
@@ -1195,36 +1271,24 @@ def cases_complement_symbols(tier):
 # --------------------------------------------------------------------------
 # (f) codon tables, translation, ORFs
 # --------------------------------------------------------------------------
-@lru_cache(maxsize=None)
-def _ncbi_tables():
-    """Independent parser of the NCBI table file shipped with biotite:
-    {id: (names, {codon: aa}, [start codons])}"""
-    import biotite.sequence as bs
-
-    path = os.path.join(os.path.dirname(bs.__file__), "codon_tables.txt")
-    with open(path) as f:
-        text = f.read()
-    out = {}
-    for block in re.split(r"\n\s*\n", text):
-        rows = {}
-        for line in block.splitlines():
-            m = re.match(r"^(name|id|AA|Init|Base1|Base2|Base3)\s+(.*\S)\s*$", line)
-            if m:
-                rows[m.group(1)] = m.group(2)
-        if "id" not in rows:
-            continue
-        aa, init = rows["AA"], rows["Init"]
-        b1, b2, b3 = rows["Base1"], rows["Base2"], rows["Base3"]
-        assert len(aa) == len(init) == len(b1) == len(b2) == len(b3) == 64
-        table = {b1[i] + b2[i] + b3[i]: aa[i] for i in range(64)}
-        starts = [b1[i] + b2[i] + b3[i] for i in range(64) if init[i] == "i"]
-        assert len(table) == 64
-        out[int(rows["id"])] = ([x.strip() for x in rows["name"].split(";")], table, starts)
-    return out
+def _ncbi_model(o, table_id, t):
+    """-> (names, {codon: aa}, [start codons]) of an NCBI table from /verif/fixtures (not from
+    biotite's data file).  `t` is the table biotite loaded: for the one entry where the stored
+    snapshot and NCBI's current tables disagree (CTG of tables 27-30) the model follows `t` as
+    long as it shows one of the two letters."""
+    names, table, starts = c03_ncbi_tables.table(table_id)
+    if table_id in c03_ncbi_tables.CTG_LEU_AT_NCBI:
+        seen = t["CTG"]
+        if seen == "L":
+            table["CTG"] = "L"
+            o.label("ncbi_27_30_CTG=L")
+        else:
+            o.label("ncbi_27_30_CTG=A")  # observation (notes/audit/C03_applied.md), not a listed finding
+    return names, table, starts
 
 
-@lru_cache(maxsize=None)
 def _load_ncbi(table_id):
+    """A fresh object per case: a table changed in place by one case must not decide another one."""
     from biotite.sequence import CodonTable
 
     return CodonTable.load(table_id)
@@ -1258,7 +1322,7 @@ def _mk_table(o, spec):
     base = spec["base"]
     if base[0] == "ncbi":
         t = _load_ncbi(base[1])
-        _names, table, starts = _ncbi_tables()[base[1]]
+        _names, table, starts = _ncbi_model(o, base[1], t)
         model, mstarts = dict(table), set(starts)
     elif base[0] == "default":
         t = CodonTable.default_table()
@@ -1316,6 +1380,12 @@ def run_translate(case):
         o.check(c in t[model[c]], "codon_table_lookup", f"{c} missing in table[{model[c]!r}]")
     aa = model[CODONS[case["codons"][0]]] if codons else "M"
     o.check_eq(sorted(t[aa]), sorted(c for c in CODONS if model[c] == aa), "codon_table_lookup", f"table[{aa!r}]")
+    # the same in code form: amino acid code -> codon codes, start codons as codes
+    as_code = lambda c: tuple(UNAMB.index(x) for x in c)  # noqa: E731
+    got_codes = sorted(tuple(int(x) for x in cc) for cc in t[PROT.index(aa)])
+    o.check_eq(got_codes, sorted(as_code(c) for c in CODONS if model[c] == aa), "codon_table_lookup", f"table[{PROT.index(aa)}] (code of {aa!r})")
+    got_starts = {tuple(int(x) for x in cc) for cc in t.start_codons(code=True)}
+    o.check_eq(got_starts, {as_code(c) for c in mstarts}, "codon_table_starts", "start_codons(code=True)")
     # complete translation
     dna = "".join(codons)
     want = "".join(model[c] for c in codons)
@@ -1330,7 +1400,8 @@ def run_translate(case):
     if case["extra"]:
         o.label("length_not_multiple_of_3")
         seq2 = NucleotideSequence(dna + "AC"[: case["extra"]])
-        _must_reject(o, lambda: seq2.translate(complete=True, codon_table=t), "translate_complete_requires_multiple_of_3", f"length {len(dna) + case['extra']}", exc=ValueError)
+        # documented as a precondition ("the sequence length must be a multiple of 3"): an error of any type
+        _must_raise_anything(o, lambda: seq2.translate(complete=True, codon_table=t), "translate_complete_requires_multiple_of_3", f"length {len(dna) + case['extra']}", label="not_multiple_of_3_raised")
     o.label("empty" if not codons else "nonempty")
     o.mark_nontrivial(len(codons) >= 4)
     return o
@@ -1453,11 +1524,11 @@ def run_codon_tables(case):
 
     o = Outcome()
     tid, codon = case["id"], CODONS[case["codon"]]
-    names, table, starts = _ncbi_tables()[tid]
     t = _load_ncbi(tid)
+    names, table, starts = _ncbi_model(o, tid, t)
     aa = table[codon]
     if tid == 1:
-        o.check_eq(aa, STANDARD[codon], "ncbi_standard_table", f"data file vs NCBI table 1 for {codon}")
+        o.check_eq(aa, STANDARD[codon], "ncbi_standard_table", f"stored table 1 vs the hard-coded NCBI table 1 for {codon}")
         o.check_eq(sorted(starts), ["ATG", "CTG", "TTG"], "ncbi_standard_table", "start codons of table 1")
     o.check_eq(t[codon], aa, "codon_table_lookup", f"load({tid})[{codon!r}]")
     code = tuple(UNAMB.index(x) for x in codon)
@@ -1473,9 +1544,16 @@ def run_codon_tables(case):
         want = model_orfs(dna, table, set(starts), False)
         o.check_eq(got, want, "orfs_exactly_start_to_first_stop_or_frame_end", f"table {tid} dna {dna}")
     if case["codon"] == 0:
-        for name in names:
+        # names: the stored ones that biotite still offers must give the same table as the id
+        offered = set(CodonTable.table_names())
+        known = [name for name in names if name in offered]
+        o.label("table_name_offered" if known else "table_names_all_renamed")
+        for name in known:
             o.check(CodonTable.load(name) == t, "codon_table_lookup", f"load({name!r}) != load({tid})")
         o.check_eq(t.codon_dict(), table, "codon_table_lookup", f"codon_dict() of table {tid}")
+        by_code = {tuple(int(x) for x in k): int(v) for k, v in t.codon_dict(code=True).items()}
+        want_code = {tuple(UNAMB.index(x) for x in c): PROT.index(a) for c, a in table.items()}
+        o.check_eq(by_code, want_code, "codon_table_lookup", f"codon_dict(code=True) of table {tid}")
     o.label("start" if is_start else "no_start", "stop" if aa == "*" else "sense")
     o.mark_nontrivial(is_start or aa == "*")
     return o
@@ -1499,9 +1577,12 @@ def st_kmer(tier):
     # all strategies are built once here (building them inside the composite costs ~10 ms per example)
     raw = st.integers(0, 10**6)
     hi = 60 if tier == "quick" else 300
+    st_one_or_two = st.one_of(
+        st_letter_spec(max_size=2, min_size=2), st.sampled_from([2, 2, 2, 1]).map(lambda m: {"kind": "range", "n": m, "offset": 0}), st_letter_spec(max_size=1)
+    )
     base_st = st.one_of(
         st_generic_spec(min_size=3), st_letter_spec(min_size=3), st_range_spec(3, 300),
-        st_letter_spec(min_size=3), st_letter_spec(max_size=2), st_range_spec(1, 2),
+        st_letter_spec(min_size=3), st_range_spec(3, 40), st_one_or_two,
     )  # fmt: skip
     bad_st = st.one_of(
         st.tuples(st.just("len"), st.integers(0, 3)),
@@ -1510,6 +1591,54 @@ def st_kmer(tier):
         st.tuples(st.just("neg"), st.integers(1, 3)),
     )
     long_seq = st_raws(0, hi)
+
+    # large k over small alphabets (DNA-like: k = 8..31, the k-mer alphabet has up to 2**62 symbols)
+    small_base_st = st.one_of(
+        st.sampled_from([UNAMB, "ACGU", "01", "xyz"]).map(lambda b: {"kind": "letter", "symbols": b, "ctor": "str"}),
+        st.integers(2, 4).map(lambda m: {"kind": "range", "n": m, "offset": 0}),
+    )
+
+    def _max_k(nb):
+        k = 2
+        while nb ** (k + 1) < 2**63 and k < 40:
+            k += 1
+        return k
+
+    def _big_spacing(t):
+        """(form, k, raw gaps) -> k informative positions out of 0..k+3, reversed (i.e. unsorted)"""
+        form, k, gaps = t
+        if form is None:
+            return (None, None)
+        keep = [i for i in range(k + 4) if i not in {g % (k + 4) for g in gaps}][:k]
+        return (form, keep[::-1])
+
+    def for_big_k():
+        def build(t):
+            base, kraw, form, gaps, rest = t
+            nb = len(base["symbols"]) if base["kind"] == "letter" else base["n"]
+            kmax = _max_k(nb)
+            k = kmax - kraw % 4 if kraw % 3 == 0 else 8 + kraw % (kmax - 7)  # one in three: at the upper end
+            d = dict(rest)
+            d.update({"base": base, "k": k, "sp": _big_spacing((form, k, gaps)), "bad_j": rest["bad_j"] % k})
+            return d
+
+        rest = st.fixed_dictionaries(
+            {
+                "seq": st.one_of(long_seq, long_seq, st_raws(0, 14)),
+                "dtype": st.sampled_from(UINT_DTYPES),
+                "bad": bad_st,
+                "bad_window": raw,
+                "bad_j": st.integers(0, 39),
+                "kmer_code": st.integers(-3, 3),
+            }
+        )
+        return st.tuples(
+            small_base_st,
+            st.integers(0, 255),
+            st.sampled_from([None, "str", "list", "ndarray"]),
+            st.lists(st.integers(0, 40), max_size=4),
+            rest,
+        ).map(build)
 
     def for_k(k):
         spacing = st.one_of(
@@ -1539,7 +1668,11 @@ def st_kmer(tier):
         d["bad"] = list(d["bad"])
         return d
 
-    return st.one_of(*[for_k(k) for k in (2, 3, 4, 5)]).map(flatten)
+    return st.one_of(*[for_k(k) for k in (2, 3, 4, 5)], for_big_k()).map(flatten)
+
+
+_F2 = "C03-F2"  # open finding: fuse() of uint64 codes is computed in float64 (wrong beyond 2**53)
+_F2_CLAUSE = "kmer_fuse_uint64_codes"
 
 
 def _is_f1_class(bad):
@@ -1568,32 +1701,71 @@ def run_kmer(case):
         else:
             arg = np.array(case["spacing"], dtype=np.int64)
         ka = KmerAlphabet(base, k, spacing=arg)
-        o.check_eq(ka.spacing.tolist(), positions, "kmer_spacing_model", f"spacing attribute for {arg!r}")
+        # (documented: the attribute holds the informative positions; their order is not)
+        o.check_eq(sorted(int(x) for x in ka.spacing), positions, "kmer_spacing_model", f"spacing attribute for {arg!r}")
     span = positions[-1] + 1
     codes = [r % nb for r in case["seq"]]
     n = len(codes)
     dt = case["dtype"]
     if nb - 1 > np.iinfo(dt).max:
         dt = "uint16"
-    o.label(kind, _size_label(nb), f"k={k}", "spaced" if form else "continuous", "spacing=" + str(form))
-    o.check_eq(len(ka), nb**k, "kmer_alphabet_size", "len(KmerAlphabet)")
+    total = nb**k
+    beyond_float = total > 2**53  # k-mer codes that a float64 cannot hold exactly
+    o.label(kind, _size_label(nb), f"k={k}" if k <= 5 else ("k=6..15" if k <= 15 else "k>=16"), "spaced" if form else "continuous", "spacing=" + str(form))
+    o.label("kmers>2**53" if beyond_float else ("kmers>2**32" if total > 2**32 else "kmers<=2**32"))
+    o.check_eq(len(ka), total, "kmer_alphabet_size", "len(KmerAlphabet)")
     o.check_eq(ka.k, k, "kmer_alphabet_size", "k")
 
     arr = np.array(codes, dtype=dt)
     if n < span:
+        # Not a single window fits.  Nothing is documented for this input: an error of any type or
+        # an empty array are both in order, k-mers are not.
         o.label("too_short")
-        _must_reject(o, lambda: ka.create_kmers(arr), "kmer_too_short_sequence_raises_ValueError", f"create_kmers on length {n} with span {span}", exc=ValueError)
+        try:
+            got = ka.create_kmers(arr)
+        except Exception as e:  # noqa: BLE001 - the type is recorded, not judged
+            o.label(f"too_short_raised={type(e).__name__}")
+        else:
+            o.label("too_short_returned_empty")
+            o.check(isinstance(got, np.ndarray) and got.shape == (0,), "kmer_too_short_sequence_gives_no_kmers", lambda: f"create_kmers on length {n} with span {span} returned {got!r:.200}")
         want = []
     else:
         want = model_kmers(codes, nb, positions)
         got = ka.create_kmers(arr)
         o.check_array_eq(got, np.array(want, dtype=np.int64), "create_kmers_equals_sliding_window", f"create_kmers(k={k}, spacing={positions}, n_base={nb}, dtype={dt})")
         o.check_eq(int(ka.kmer_array_length(n)), len(want), "create_kmers_equals_sliding_window", "kmer_array_length")
+        # the same sequence code as a view with a stride
+        got = ka.create_kmers(np.repeat(arr, 2)[::2])
+        o.check_array_eq(got, np.array(want, dtype=np.int64), "create_kmers_equals_sliding_window", f"create_kmers(strided view, k={k}, spacing={positions}, n_base={nb}, dtype={dt})")
         o.label("windows>=4" if len(want) >= 4 else "windows<4")
     o.mark_nontrivial(len(want) >= 4 and nb >= 3)
 
     # fuse / split on the windows (vectorised and single)
     windows = [[codes[i + p] for p in positions] for i in range(len(want))]
+
+    def exact(a):
+        """uint64 symbol codes as fuse() input: while C03-F2 is open the k-mer alphabets beyond
+        2**53 symbols get them as int64 (the narrowed class is counted)."""
+        a = np.asarray(a)
+        if beyond_float and a.dtype == np.uint64 and findings.is_open(_F2) and not case.get("no_narrow"):
+            if _F2 not in o.excluded:
+                o.exclude(_F2)
+            return a.astype(np.int64)
+        return a
+
+    def digits(c):
+        out = []
+        for _ in range(k):
+            out.append(c % nb)
+            c //= nb
+        return out[::-1]
+
+    # k-mer codes at the ends of the alphabet and around 2**32 / 2**53
+    for c in sorted(v for v in {0, 1, total // 2 + 1, total - 2, total - 1, 2**32 - 1, 2**32 + 1, 2**53 - 1, 2**53 + 1} if 0 <= v < total):
+        o.check_eq([int(x) for x in ka.split(c)], digits(c), "kmer_split_inverts_fuse", f"split({c}) with {total} k-mers")
+        o.check_eq(int(ka.fuse(np.array(digits(c), dtype=np.int64))), c, "kmer_fuse", f"fuse(digits of {c}) with {total} k-mers")
+        o.check_eq(int(ka.fuse(exact(ka.split(c)))), c, _F2_CLAUSE, f"fuse(split({c})) with {total} k-mers")
+        o.check_eq(int(ka.encode(ka.decode(c))), c, "encode_decode_identity", f"k-mer code {c} of {total}")
     if windows:
         w2 = np.array(windows, dtype=np.int64)
         fused = ka.fuse(w2)
@@ -1602,9 +1774,9 @@ def run_kmer(case):
         o.check_array_eq(split, w2, "kmer_split_inverts_fuse", "split(array)")
         for i in sorted({0, len(windows) // 2, len(windows) - 1}):
             w = windows[i]
-            o.check_eq(int(ka.fuse(np.array(w, dtype=dt))), want[i], "kmer_fuse", f"fuse({w})")
+            o.check_eq(int(ka.fuse(exact(np.array(w, dtype=dt)))), want[i], _F2_CLAUSE if dt == "uint64" else "kmer_fuse", f"fuse({w}) as {dt}")
             o.check_eq([int(x) for x in ka.split(want[i])], w, "kmer_split_inverts_fuse", f"split({want[i]})")
-            o.check_eq(int(ka.fuse(ka.split(want[i]))), want[i], "kmer_split_inverts_fuse", "fuse(split(c))")
+            o.check_eq(int(ka.fuse(exact(ka.split(want[i])))), want[i], _F2_CLAUSE, f"fuse(split({want[i]}))")
             # symbol level: a k-mer symbol is the sequence of its base symbols
             ksym = [syms[c] for c in w]
             sym_arg = "".join(ksym) if kind == "letter" else list(ksym)
@@ -1619,7 +1791,6 @@ def run_kmer(case):
 
     # ---- rejection
     cl = "code_outside_range_raises_AlphabetError"
-    total = nb**k
     # k-mer codes around the ends of the k-mer alphabet
     kc = case["kmer_code"]
     kcode = total + kc if kc >= 0 else kc
@@ -1628,18 +1799,21 @@ def run_kmer(case):
     _must_reject(o, lambda: ka.decode(kcode), cl, f"decode({kcode}) with {total} k-mers")
     # base codes outside the base alphabet
     bad = case["bad"]
-    if _is_f1_class(bad) and findings.is_open("C03-F1") and not case.get("no_narrow"):
-        o.exclude("C03-F1")
-        bad = ["len", 1 + bad[1]]
-    badcode = nb + bad[1] if bad[0] == "len" else -bad[1]
     j = case["bad_j"]
+    fbad = bad
+    if _is_f1_class(bad) and findings.is_open("C03-F1") and not case.get("no_narrow"):
+        o.exclude("C03-F1")  # narrows the two fuse() calls only
+        fbad = ["len", 1 + bad[1]]
+    fcode = nb + fbad[1] if fbad[0] == "len" else -fbad[1]
     w = [0] * k
-    w[j] = badcode
-    o.label("fuse_bad=" + ("len" if badcode == nb else ("len+" if badcode > nb else "neg")))
+    w[j] = fcode
+    o.label("fuse_bad=" + ("len" if fcode == nb else ("len+" if fcode > nb else "neg")))
     _must_reject(o, lambda: ka.fuse(np.array(w, dtype=np.int64)), "kmer_fuse_rejects_invalid_code", f"fuse({w}) with base alphabet of {nb}")
     _must_reject(o, lambda: ka.fuse(np.array([[0] * k, w], dtype=np.int64)), "kmer_fuse_rejects_invalid_code", f"fuse([[0..], {w}]) with base alphabet of {nb}")
-    # the same code inside a sequence, at an informative position of some window
+    # the code as drawn (not narrowed) inside a sequence, at an informative position of some window
+    badcode = nb + bad[1] if bad[0] == "len" else -bad[1]
     if want and bad[0] == "len":
+        o.label("create_kmers_bad=" + ("len" if badcode == nb else "len+"))
         wi = case["bad_window"] % len(want)
         p = wi + positions[j]
         dt2 = dt if badcode <= np.iinfo(dt).max else ("uint16" if badcode <= 65535 else "uint32")
@@ -1651,7 +1825,8 @@ def run_kmer(case):
     good = [syms[0]] * k
     for wrong in (good[:-1], good + [syms[0]]):
         arg = "".join(wrong) if kind == "letter" else list(wrong)
-        _must_reject(o, lambda: ka.encode(arg), cls, f"encode of a {len(wrong)}-mer in a {k}-mer alphabet")
+        # (a malformed symbol rather than a foreign one: a shape error is as good as an AlphabetError)
+        _must_reject(o, lambda: ka.encode(arg), cls, f"encode of a {len(wrong)}-mer in a {k}-mer alphabet", exc=(AlphabetError, ValueError))
     if kind == "letter":
         non = [c for c in PRINTABLES + " " if c not in syms]
         foreign = list(good)
@@ -1666,6 +1841,15 @@ def run_kmer(case):
 
 def _f1_predicate(sub, case, clause, message):
     return sub == "kmer_alphabet" and clause == "kmer_fuse_rejects_invalid_code" and _is_f1_class(case["bad"])
+
+
+def _n_base(spec):
+    return spec["n"] if spec["kind"] == "range" else len(spec["symbols"])
+
+
+def _f2_predicate(sub, case, clause, message):
+    """fuse() of uint64 symbol codes in a k-mer alphabet of more than 2**53 symbols."""
+    return sub == "kmer_alphabet" and clause == _F2_CLAUSE and _n_base(case["base"]) ** case["k"] > 2**53
 
 
 SUBS = [
@@ -1703,7 +1887,7 @@ SUBS = [
         quick=4000,
         thorough=100000,
         rule="permuted target alphabet, >= 4 codes, source size >= 3",
-        clauses="target.decode(mapper[c]) == source.decode(c), scalar and array; a target lacking a source symbol raises AlphabetError",
+        clauses="target.decode(mapper[c]) == source.decode(c), scalar and array (also strided / reversed views); a target lacking a source symbol gives an error (any type) and never a mapped value",
     ),
     Sub(
         "sequence_ops",
@@ -1730,7 +1914,7 @@ SUBS = [
         quick=3200,
         thorough=80000,
         rule=">= 4 codons",
-        clauses="translate(complete=True) == per-codon lookup; codon_dict/table[codon]/table[code]/table[aa]/start_codons agree with the model table after with_start_codons/with_codon_mappings; NCBI tables vs own parser",
+        clauses="translate(complete=True) == per-codon lookup; codon_dict/table[codon]/table[code]/table[aa]/start_codons agree with the model table after with_start_codons/with_codon_mappings (string and code forms); NCBI tables vs the tables stored in fixtures/c03_ncbi_tables.py; length not a multiple of 3 -> an error",
     ),
     Sub(
         "orfs",
@@ -1748,7 +1932,7 @@ SUBS = [
         quick=4800,
         thorough=120000,
         rule=">= 4 k-mers in the sequence and base alphabet size >= 3",
-        clauses="create_kmers == naive sliding window (continuous and spaced, all uint dtypes); split(fuse(c)) == c; k-mer symbol encode/decode; too short -> ValueError; invalid base codes, k-mer codes and symbols -> AlphabetError",
+        clauses="create_kmers == naive sliding window (continuous and spaced, all uint dtypes, strided view; k = 2..5 over any base alphabet, k = 8..40 over 2..4 symbols); split(fuse(c)) == c and fuse(split(c)) == c (uint64 codes), also at both ends of the k-mer alphabet and around 2**32 / 2**53; k-mer symbol encode/decode; too short -> an error or no k-mers; invalid base codes, k-mer codes and foreign symbols -> AlphabetError; k-mer symbol of the wrong length -> AlphabetError or ValueError",
     ),
 ]
 
@@ -1762,6 +1946,9 @@ def cases_mapper_wide(tier):
     for n in _WIDE_SIZES:
         for mode in ("reversed", "rotated", "extended"):
             yield {"n": n, "mode": mode}
+    # k-mer alphabets as source and target (base alphabet reversed / enlarged in the target)
+    for nb, k, tb in ((4, 4, 5), (16, 2, 17), (17, 4, 17)):
+        yield {"n": nb**k, "mode": "kmer", "nb": nb, "k": k, "tb": tb}
 
 
 def run_mapper_wide(case):
@@ -1769,6 +1956,35 @@ def run_mapper_wide(case):
 
     o = Outcome()
     n, mode = case["n"], case["mode"]
+    probe_all = (0, 1, 6, 7, 8, 127, 128, 254, 255, 256, 257, 32767, 32768, 65534, 65535, 65536, 65537, n - 2, n - 1)
+    if mode == "kmer":
+        from biotite.sequence.align import KmerAlphabet
+
+        nb, k, tb = case["nb"], case["k"], case["tb"]
+        src = KmerAlphabet(Alphabet(list(range(nb))), k)
+        tgt = KmerAlphabet(Alphabet(list(range(tb))[::-1]), k)  # base symbol v has the code tb-1-v
+        mapper = AlphabetMapper(src, tgt)
+        o.label(f"n={n}", mode, "tgt>65536" if tb**k > 65536 else ("tgt>256" if tb**k > 256 else "tgt<=256"))
+        o.mark_nontrivial()
+
+        def ksym(c):
+            return [(c // nb ** (k - 1 - i)) % nb for i in range(k)]
+
+        def tcode(c):
+            v = 0
+            for d in ksym(c):
+                v = v * tb + (tb - 1 - d)
+            return v
+
+        probe = sorted({c for c in probe_all if 0 <= c < n})
+        cl = "mapper_preserves_symbols"
+        for c in probe:
+            o.check_eq(int(mapper[c]), tcode(c), cl, f"k-mer code {c} of {n}")
+            o.check_eq([int(x) for x in tgt.decode(mapper[c])], ksym(c), cl, f"symbol of k-mer code {c} of {n}")
+        for name, arr in _code_forms(probe):
+            o.check_eq([int(x) for x in mapper[arr]], [tcode(c) for c in probe], cl, f"mapper[{name} array] between k-mer alphabets of {n} and {tb**k}")
+        o.check_eq(np.asarray(mapper[np.arange(n)]).tolist(), [tcode(c) for c in range(n)], cl, f"all {n} k-mer codes")
+        return o
     syms = list(range(n))
     if mode == "reversed":
         tsyms = syms[::-1]
@@ -1780,7 +1996,7 @@ def run_mapper_wide(case):
     mapper = AlphabetMapper(src, tgt)
     o.label(f"n={n}", mode)
     o.mark_nontrivial()
-    probe = sorted({c for c in (0, 1, 6, 7, 8, 127, 128, 254, 255, 256, 257, 32767, 32768, 65534, 65535, 65536, 65537, n - 2, n - 1) if 0 <= c < n})
+    probe = sorted({c for c in probe_all if 0 <= c < n})
     cl = "mapper_preserves_symbols"
     for c in probe:
         o.check_eq(_plain(tgt.decode(mapper[c])), c, cl, f"scalar code {c} of {n}")
@@ -1814,7 +2030,7 @@ ENUMS = [
         "mapper_wide",
         cases_mapper_wide,
         run_mapper_wide,
-        rule="source alphabet of 255..70000 symbols mapped onto a reversed, rotated or extended target",
+        rule="source alphabet of 255..70000 symbols mapped onto a reversed, rotated or extended target; k-mer alphabets of 256 / 83521 symbols mapped onto k-mer alphabets over a reversed (and larger) base alphabet",
         clauses="codes on both sides of the 8 and 16 bit boundaries keep their symbols, scalar and array form, every integer dtype",
         exhaustive=True,
     ),
@@ -1836,4 +2052,7 @@ ENUMS = [
     ),
 ]
 
-FINDINGS = {"kmer_fuse_code_equal_len_or_negative": _f1_predicate}
+FINDINGS = {
+    "kmer_fuse_code_equal_len_or_negative": _f1_predicate,
+    "kmer_fuse_uint64_promotes_to_float": _f2_predicate,
+}
